@@ -16,6 +16,10 @@ CHECKS = {
    technique="explicit-state breadth-first search over operation histories of the real container with state de-duplication, each step compared with a reference byte queue",
    text="Breadth-first search over all operation histories up to depth 4 (quick) / 5 (thorough) from 6 initial containers over an alphabet of 106 operations (every exported data operation with forced-collision arguments: nil/empty/1B/3B data, requested lengths -1,0,1,2,len,len+1,2^62, numbers at the varint and int boundaries up to 2^64-1, partially consumed and prepended argument containers). Every history is replayed on a fresh real container and on a plain []byte queue; every result, Length, HoldsData and the content of a carbon copy are compared after every history; states are de-duplicated on the private representation (offset, compartment length vector) plus content, so all reachable internal layouts within the bound are visited.",
    note="Trusted: the []byte reference model in h/c16 (a negative requested length may be refused or return nothing; GetNextBlock is defined as GetNextN64 followed by Get). Histories longer than the depth bound and data values outside the alphabet are not covered; the container code never branches on payload bytes except through varint decoding, whose boundaries are in the alphabet."),
+ "C05": dict(engine="S", category="model_checking", design_ref="DESIGN.md §2, §6 C05",
+   technique="stateless model checking of the implementation: deviation-bounded exhaustive enumeration of thread interleavings under a controlled scheduler with virtual time",
+   text="The real modules and log packages are compiled from a source-instrumented copy in which every mutex, atomic, abool, channel, select and go operation is a scheduling point of a controlled scheduler that models blocking and virtual time. For ~200 closed drivers ({single module, dependent+dependency, cross-module hook source} x {Shutdown, Disable+ManageModules} x work-item multisets of size <= 2 over worker, service worker, queued task, high/medium/low/signalled microtask, own and cross-module event hook x stop-routine variants) every schedule with at most 2 (thorough 3) deviations from the default scheduler is executed, each from a freshly reset world, and checked: context cancelled before the stop routine runs, the module leaves Stopping / the dependency's stop routine begins / the trigger returns only after the stop routine and all work returned, no waiting out the stop timeout (virtual clock), nothing new runs on the stopped module, no deadlock, no uncontained panic.",
+   note="Trusted: the scheduler's model of Go synchronisation (shim/, validated by selftests with known interleaving counts), sequential consistency, data-race freedom outside instrumented operations, RWMutex without writer preference. Preemptions are only placed at synchronisation operations issued by package modules and at harness events (operations inside package log switch threads only when they block); bound = deviations from the deterministic default scheduler (delay bounding). Drivers larger than 2 work items / 3 modules are not covered."),
 }
 
 NOT_BUILT_REASON = "check not built yet (work in progress; planned, see DESIGN.md section 6)"
